@@ -31,6 +31,8 @@ def main(argv):
   for sp in specs.SPECS:
     if names and sp['name'] not in names:
       continue
+    if sp.get('skip'):
+      continue
     work = f"/var/tmp/verif-mut-{sp['name']}"
     sh('git', '-C', '/repo', 'worktree', 'remove', '--force', work)
     r = sh('git', '-C', '/repo', 'worktree', 'add', '-f', '--detach', work, 'HEAD')
